@@ -6,6 +6,7 @@
 //            followed instead of reported, a block handed out twice / outside the heap after a detected error.
 #include VERIF_STATIC_C
 #include <stdio.h>
+#include <unistd.h>
 #include <stdlib.h>
 #include <errno.h>
 static int nfail = 0;
@@ -62,7 +63,8 @@ int main(int argc, char** argv) {
   rs ^= seed * 0x9E3779B97F4A7C15ULL; if (rs == 0) rs = 1;
   mi_option_set(mi_option_show_errors, 0); mi_option_set(mi_option_max_errors, 0); mi_option_set(mi_option_max_warnings, 0); mi_option_set(mi_option_verbose, 0);
   mi_register_error(&on_error, NULL);
-  size_t n_double = 0, n_over = 0, n_forge = 0, n_ops = 0;
+  alarm(rounds > 1000 ? 600 : 150);   // a followed forged link can put the allocator into an endless loop: die instead (reported as a crash)
+  size_t n_double = 0, n_over = 0, n_forge = 0, n_forge_seg = 0, n_ops = 0;
   static const size_t SZ[] = { 1, 8, 15, 16, 24, 40, 48, 100, 120, 128, 200, 500, 1000, 2000, 5000, 9000, 20000, 70000 };
   for (int r = 0; r < rounds; r++) {
     // ordinary activity
@@ -92,7 +94,11 @@ int main(int argc, char** argv) {
     } else {                    // a free-list link overwritten by the program
       size_t n = SZ[rnd() % 12]; uint8_t* a = (uint8_t*)xalloc(n, "fl-a"); uint8_t* keep = (uint8_t*)xalloc(n, "fl-keep"); if (!a || !keep) continue;
       int ia = find_live(a); live[ia] = live[--nlive]; mi_free(a);
-      uint64_t forged = rnd(); *(uint64_t*)a = forged; nerr = 0; n_forge++;
+      uint64_t forged = rnd();
+      if (rnd() % 2) {   // a well-formed encoded link to a live block in ANOTHER page of the same segment (only the same-page test can refuse it)
+        mi_page_t* pg = _mi_ptr_page(a);
+        for (int j = 0; j < nlive; j++) { uint8_t* t = live[j].p; if (_mi_ptr_segment(t) == _mi_ptr_segment(a) && _mi_ptr_page(t) != pg) { forged = (uint64_t)mi_ptr_encode(pg, t, pg->keys); n_forge_seg++; break; } } }
+      *(uint64_t*)a = forged; nerr = 0; n_forge++;
       int reported = 0;
       for (int k = 0; k < 6000 && !reported; k++) { xalloc(n, "after-forged-link"); if (saw(EFAULT)) reported = 1; if (nlive > NLIVE - 10) break; }
       if (!reported) { // the allocator may legitimately not have reached the block yet; force collection and drain the page
@@ -103,7 +109,7 @@ int main(int argc, char** argv) {
     }
   }
   while (nlive > 0) xfree_idx(nlive - 1);
-  printf("STAT ops %zu\nSTAT double_frees %zu\nSTAT overflows %zu\nSTAT forged_links %zu\nSTAT tlines %zu\n", n_ops, n_double, n_over, n_forge, n_t);
+  printf("STAT ops %zu\nSTAT double_frees %zu\nSTAT overflows %zu\nSTAT forged_links %zu\nSTAT forged_links_same_segment %zu\nSTAT tlines %zu\n", n_ops, n_double, n_over, n_forge, n_forge_seg, n_t);
   printf("DONE fails %d\n", nfail);
   return 0;
 }
